@@ -302,7 +302,16 @@ def d5_d6(prog, rep):
             rep.check(c.pos in tested, "D5-checked", "%s in %s: result tested" % (c.text[:40], f.name), c.where,
                       "%s can fail for lack of memory; its result is not tested, so on failure the computation goes on with an unset operand and still reports success" % c.callee,
                       function=f.name, construct="bn-checked:" + c.callee)
-        aborts = [c for c in f.calls() if c.callee in ("abort", "__assert_fail", "__assert", "exit", "_exit")]
+        aborts = []
+        ptr_params = set(p["name"] for p in f.params if (u.types.get(p["ty"]) or {}).get("kind") in ("ptr", "array"))
+        for c in f.calls():
+            if c.callee not in ("abort", "__assert_fail", "__assert", "exit", "_exit"):
+                continue
+            # an assertion that only says "this pointer argument is not NULL" does not narrow the set of values accepted
+            at = [(op, L, R) for cond, truth in f.edge_conds(c) for op, L, R, _, _ in cond_atoms(cond, truth)]
+            if at and all(L[0] == "v" and L[1] in ptr_params and R == ("c", 0) and op in ("==", "!=") for op, L, R in at):
+                continue
+            aborts.append(c)
         rep.check(not aborts, "D6-total", "%s has no assertion or abort path" % f.name, f.loc,
                   "%s: the function aborts for some inputs; the property requires an exact result for every private and peer value" % [a.text[:50] for a in aborts],
                   function=f.name, construct="total")
